@@ -22,6 +22,10 @@ type Encoder struct {
 	// NoAltSID forces the lowest id for every text.
 	NoAltSID bool
 	Err      error
+	// Raw substitutes the given bytes for the (unannotated) encoding of a value node (C07).
+	Raw map[*model.Value][]byte
+	// Tops records [start,end) offsets of every top-level item appended (values, tables, markers, pads).
+	Tops [][2]int
 }
 
 func NewEncoder(c *choice.C, cat refsym.Catalog) *Encoder {
@@ -194,6 +198,11 @@ var nullTags = map[model.Kind]byte{model.Null: 0x0F, model.Bool: 0x1F, model.Int
 	model.Sexp: 0xCF, model.Struct: 0xDF}
 
 func (e *Encoder) bare(v *model.Value) []byte {
+	if e.Raw != nil {
+		if r, ok := e.Raw[v]; ok {
+			return r
+		}
+	}
 	if v.IsNull || v.Kind == model.Null {
 		return []byte{nullTags[v.Kind]}
 	}
@@ -363,15 +372,22 @@ func (e *Encoder) timestampBody(t model.TS) []byte {
 // ---- stream level ----
 
 func (e *Encoder) AppendIVM() {
+	e.Tops = append(e.Tops, [2]int{len(e.Out), len(e.Out) + 4})
 	e.Out = append(e.Out, IVM...)
 	e.Ctx = refsym.System()
 }
 
-func (e *Encoder) AppendNOP() { e.Out = append(e.Out, e.randomNOP()...) }
+func (e *Encoder) AppendNOP() {
+	st := len(e.Out)
+	e.Out = append(e.Out, e.randomNOP()...)
+	e.Tops = append(e.Tops, [2]int{st, len(e.Out)})
+}
 
 // AppendValue appends a top-level user value.
 func (e *Encoder) AppendValue(v *model.Value) {
+	st := len(e.Out)
 	e.Out = append(e.Out, e.Value(v)...)
+	e.Tops = append(e.Tops, [2]int{st, len(e.Out)})
 }
 
 // LSTValue builds the struct value of a symbol table.
@@ -425,7 +441,9 @@ func (e *Encoder) AppendLST(spec refsym.LSTSpec, gapValues []*model.Value) {
 	}
 	old := e.NoAltSID
 	e.NoAltSID = true
+	st := len(e.Out)
 	e.Out = append(e.Out, e.Value(v)...)
+	e.Tops = append(e.Tops, [2]int{st, len(e.Out)})
 	e.NoAltSID = old
 	nc, err := refsym.Apply(e.Ctx, e.Cat, spec)
 	if err != nil {
@@ -498,6 +516,15 @@ type Encoded struct {
 // Encode renders a whole stream: version marker, symbol tables as needed, values, with choices.
 func Encode(vals []*model.Value, c *choice.C) (*Encoded, error) {
 	e := NewEncoder(c, nil)
+	if err := e.Stream(vals); err != nil {
+		return nil, err
+	}
+	return &Encoded{Bytes: e.Out, UnorderedStructs: e.UnorderedStructs}, nil
+}
+
+// Stream appends a whole value stream (tables as needed, values, pads) to the encoder.
+func (e *Encoder) Stream(vals []*model.Value) error {
+	c := e.C
 	// split into segments
 	cuts := []int{0}
 	if len(vals) > 1 && c.Flip("stream:multi-segment") {
@@ -535,8 +562,5 @@ func Encode(vals []*model.Value, c *choice.C) (*Encoded, error) {
 	if c.Flip("enc:nop-top") {
 		e.AppendNOP()
 	}
-	if e.Err != nil {
-		return nil, e.Err
-	}
-	return &Encoded{Bytes: e.Out, UnorderedStructs: e.UnorderedStructs}, nil
+	return e.Err
 }
